@@ -5,6 +5,13 @@
 //! reference `BTreeMap` + type-id checks + drop log (C09). The same histories are piped to the Lean
 //! model (`world ...` requests). A many-thread stress part checks the C08 safety clause with a
 //! shadow atomic counter bracketed strictly inside every real guard's lifetime.
+//!
+//! Faults: closures under `catch_unwind` that take guards of every kind and then return, panic, or
+//! are refused a fetch half-way (`scope`), a caller that panics while holding the `entry` guard or
+//! inside `exec`, `or_insert_with` closures that panic, and values whose `Drop` panics on demand (a
+//! one-shot fuse) at every place where the world drops a value: `insert` replacing, `or_insert` on
+//! an occupied slot, the caller dropping what `remove` returned, the world's own drop. The probes
+//! and the drop accounting go on after every one of them.
 use crate::common::*;
 use shred::cell::{AtomicRef, AtomicRefMut};
 use shred::{
@@ -45,6 +52,36 @@ fn log_made(ty: u8, tok: u64) {
 }
 fn log_dropped(ty: u8, tok: u64) {
     LOG.lock().unwrap_or_else(|e| e.into_inner()).dropped.push((ty, tok));
+}
+/// one-shot fuse: the value (type, token; any token for the ZST) whose `Drop` panics when it runs next
+static FUSE: Mutex<Option<(u8, u64)>> = Mutex::new(None);
+/// set when a fused value was dropped while its thread was already unwinding (the fuse then stays quiet)
+static FUSE_IN_UNWIND: Mutex<bool> = Mutex::new(false);
+fn arm(ty: u8, tok: u64) {
+    *FUSE.lock().unwrap_or_else(|e| e.into_inner()) = Some((ty, tok));
+}
+/// returns true if the fuse was still armed (i.e. the value was not dropped)
+fn disarm() -> bool {
+    FUSE.lock().unwrap_or_else(|e| e.into_inner()).take().is_some()
+}
+fn fuse_hit(ty: u8, tok: u64) -> bool {
+    let mut f = FUSE.lock().unwrap_or_else(|e| e.into_inner());
+    match *f {
+        Some((t, k)) if t == ty && (ty == 0 || k == tok) => {
+            *f = None;
+            if std::thread::panicking() {
+                *FUSE_IN_UNWIND.lock().unwrap_or_else(|e| e.into_inner()) = true;
+                false
+            } else {
+                true
+            }
+        }
+        _ => false,
+    }
+}
+thread_local! {
+    /// what a closure that is going to panic saw through its guards
+    static SEEN: RefCell<Vec<Option<(u8, u64)>>> = RefCell::new(vec![]);
 }
 fn next_default() -> u64 {
     DEFAULTS.with(|d| d.borrow_mut().pop_front()).unwrap_or(u64::MAX)
@@ -119,7 +156,14 @@ impl Tok for V {
 }
 macro_rules! impl_drop_default {
     ($($t:ty),*) => {$(
-        impl Drop for $t { fn drop(&mut self) { log_dropped(self.ty(), self.tok()); } }
+        impl Drop for $t {
+            fn drop(&mut self) {
+                log_dropped(self.ty(), self.tok());
+                if fuse_hit(self.ty(), self.tok()) {
+                    panic!("harness: drop fuse");
+                }
+            }
+        }
         impl Default for $t { fn default() -> Self { <$t as Tok>::make(next_default()) } }
     )*};
 }
@@ -192,16 +236,65 @@ fn inspect(r: &dyn Resource) -> (Option<u8>, u64) {
 // guards
 // ---------------------------------------------------------------------------------------------
 
+/// Word offset of the borrow counter inside an `AtomicRefCell<Box<dyn Resource>>`, found by experiment
+/// (a fresh cell is borrowed once, twice, exclusively; the word that reads 0, 1, 2, HIGH_BIT, 0 is it).
+/// Used only to *look* at a cell without touching it: the cell's own `try_borrow` increments the counter
+/// and aborts the process on a counter that was decremented too often. `None`: layout not recognised,
+/// the probes then use the cell's API only.
+fn counter_offset() -> Option<usize> {
+    use std::sync::atomic::{AtomicUsize, Ordering::SeqCst};
+    static OFF: std::sync::OnceLock<Option<usize>> = std::sync::OnceLock::new();
+    *OFF.get_or_init(|| {
+        let c: shred::cell::AtomicRefCell<Box<dyn Resource>> = shred::cell::AtomicRefCell::new(Box::new(0u8));
+        let n = std::mem::size_of_val(&c) / std::mem::size_of::<usize>();
+        if std::mem::size_of_val(&c) % std::mem::size_of::<usize>() != 0 || std::mem::align_of_val(&c) < std::mem::align_of::<usize>() {
+            return None;
+        }
+        // SAFETY: aligned word reads inside a live, initialised object
+        let read = |c: &shred::cell::AtomicRefCell<Box<dyn Resource>>| -> Vec<usize> {
+            (0..n).map(|i| unsafe { (*(c as *const _ as *const AtomicUsize).add(i)).load(SeqCst) }).collect()
+        };
+        let w0 = read(&c);
+        let g1 = c.borrow();
+        let w1 = read(&c);
+        let g2 = c.borrow();
+        let w2 = read(&c);
+        drop(g1);
+        drop(g2);
+        let g3 = c.borrow_mut();
+        let w3 = read(&c);
+        drop(g3);
+        let w4 = read(&c);
+        let high = !(usize::MAX >> 1);
+        let cands: Vec<usize> = (0..n).filter(|&i| w0[i] == 0 && w1[i] == 1 && w2[i] == 2 && w3[i] == high && w4[i] == 0).collect();
+        if cands.len() == 1 { Some(cands[0]) } else { None }
+    })
+}
+/// the raw borrow counter of a cell (0 = free, n = n shared borrows, high bit = exclusive)
+fn peek_counter(c: &shred::cell::AtomicRefCell<Box<dyn Resource>>) -> Option<usize> {
+    use std::sync::atomic::{AtomicUsize, Ordering::SeqCst};
+    // SAFETY: see `counter_offset`
+    counter_offset().map(|o| unsafe { (*(c as *const _ as *const AtomicUsize).add(o)).load(SeqCst) })
+}
+/// count unknown (layout not recognised)
+const NCOUNT: usize = usize::MAX;
+
 trait GuardLike {
     /// (type, token) seen through the guard
     fn see(&self) -> (u8, u64);
     fn try_clone(&self) -> Option<Box<dyn GuardLike>> {
         None
     }
+    fn can_clone(&self) -> bool {
+        false
+    }
 }
 impl<T: Tok + Resource> GuardLike for Fetch<'static, T> {
     fn see(&self) -> (u8, u64) {
         ((**self).ty(), (**self).tok())
+    }
+    fn can_clone(&self) -> bool {
+        true
     }
     fn try_clone(&self) -> Option<Box<dyn GuardLike>> {
         Some(Box::new(Clone::clone(self)))
@@ -215,6 +308,9 @@ impl<T: Tok + Resource> GuardLike for FetchMut<'static, T> {
 impl GuardLike for AtomicRef<'static, dyn Tok> {
     fn see(&self) -> (u8, u64) {
         ((**self).ty(), (**self).tok())
+    }
+    fn can_clone(&self) -> bool {
+        true
     }
     fn try_clone(&self) -> Option<Box<dyn GuardLike>> {
         Some(Box::new(AtomicRef::clone(self)))
@@ -254,6 +350,21 @@ impl<X: Field> Field for Option<X> {
         self.and_then(|x| x.into_guard())
     }
 }
+
+/// the guards a closure owns: dropped last-taken-first, on return and on unwinding alike
+struct RevDrop(Vec<Box<dyn GuardLike>>);
+impl Drop for RevDrop {
+    fn drop(&mut self) {
+        while let Some(g) = self.0.pop() {
+            // a guard's drop that panics (a corrupt counter) must not escape: this may run during unwinding
+            if let Err(e) = catch(move || drop(g)) {
+                GUARD_DROP_PANICS.lock().unwrap_or_else(|e| e.into_inner()).push(e);
+            }
+        }
+    }
+}
+/// panics out of a guard's `drop` inside a closure (never happens with a sound cell)
+static GUARD_DROP_PANICS: Mutex<Vec<String>> = Mutex::new(vec![]);
 
 struct Live {
     g: Box<dyn GuardLike>,
@@ -309,6 +420,8 @@ struct SdEntry {
     fetch: SdFetch,
     setup: SdSetup,
     exec: SdExec,
+    /// `exec` with a closure that records what it sees (`SEEN`) and panics while it holds the data
+    exec_boom: SdExec,
 }
 macro_rules! sd_entry {
     ($spec:expr, ($($f:ident : $t:ty),+)) => {
@@ -324,6 +437,15 @@ macro_rules! sd_entry {
                 let w: &'static mut World = unsafe { &mut *(w as *mut World) };
                 w.exec(|($($f,)+): ($($t,)+)| {
                     vec![$(Field::into_guard($f).map(|g| g.see())),+]
+                })
+            },
+            exec_boom: |w: &mut World| {
+                // SAFETY (harness): as above
+                let w: &'static mut World = unsafe { &mut *(w as *mut World) };
+                w.exec(|($($f,)+): ($($t,)+)| -> Vec<Option<(u8, u64)>> {
+                    let gs: Vec<Option<Box<dyn GuardLike>>> = vec![$(Field::into_guard($f)),+];
+                    SEEN.with(|s| *s.borrow_mut() = gs.iter().map(|g| g.as_ref().map(|g| g.see())).collect());
+                    panic!("harness: explicit");
                 })
             },
         }
@@ -347,6 +469,71 @@ fn sd_menu() -> Vec<SdEntry> {
 // ---------------------------------------------------------------------------------------------
 // operations and case lines
 // ---------------------------------------------------------------------------------------------
+
+/// one acquisition inside a closure that runs under `catch_unwind`
+#[derive(Clone, Debug, PartialEq)]
+pub enum Take {
+    /// type, exclusive, panicking form (`fetch` / `fetch_mut`) or `try_` form
+    Fetch(u8, bool, bool),
+    /// type argument, id, exclusive
+    ById(u8, Key, bool),
+    Data(String),
+    /// `next()` of the closure's own `MetaIter` (false) / `MetaIterMut` (true)
+    Iter(bool),
+    /// clone of the i-th guard the closure has taken
+    CloneLocal(usize),
+    /// clone of the i-th guard of the harness's table (alive outside the closure)
+    CloneOuter(usize),
+}
+impl Take {
+    fn word(&self) -> String {
+        match self {
+            Take::Fetch(t, false, true) => format!("fetch:{}", t),
+            Take::Fetch(t, true, true) => format!("fetch-mut:{}", t),
+            Take::Fetch(t, false, false) => format!("try-fetch:{}", t),
+            Take::Fetch(t, true, false) => format!("try-fetch-mut:{}", t),
+            Take::ById(a, k, false) => format!("by-id:{}:{}", a, show_key(*k)),
+            Take::ById(a, k, true) => format!("by-id-mut:{}:{}", a, show_key(*k)),
+            Take::Data(s) => format!("data:{}", s),
+            Take::Iter(x) => format!("iter:{}", *x as u8),
+            Take::CloneLocal(i) => format!("clone:@{}", i),
+            Take::CloneOuter(i) => format!("clone:#{}", i),
+        }
+    }
+    fn parse(w: &str) -> Option<Take> {
+        let f: Vec<&str> = w.split(':').collect();
+        Some(match f.as_slice() {
+            ["fetch", t] => Take::Fetch(t.parse().ok()?, false, true),
+            ["fetch-mut", t] => Take::Fetch(t.parse().ok()?, true, true),
+            ["try-fetch", t] => Take::Fetch(t.parse().ok()?, false, false),
+            ["try-fetch-mut", t] => Take::Fetch(t.parse().ok()?, true, false),
+            ["by-id", a, k] => Take::ById(a.parse().ok()?, parse_key(k)?, false),
+            ["by-id-mut", a, k] => Take::ById(a.parse().ok()?, parse_key(k)?, true),
+            ["data", s] => Take::Data(s.to_string()),
+            ["iter", x] => Take::Iter(*x == "1"),
+            ["clone", i] if i.starts_with('@') => Take::CloneLocal(i[1..].parse().ok()?),
+            ["clone", i] if i.starts_with('#') => Take::CloneOuter(i[1..].parse().ok()?),
+            _ => return None,
+        })
+    }
+}
+fn show_takes(t: &[Take]) -> String {
+    if t.is_empty() {
+        "-".into()
+    } else {
+        t.iter().map(|x| x.word()).collect::<Vec<_>>().join(" ")
+    }
+}
+/// which fault an `entry` call meets
+#[derive(Clone, Copy, Debug, PartialEq)]
+pub enum EntryFault {
+    /// the caller panics while it holds the returned guard (true = `or_insert`, false = `or_insert_with`)
+    Held(bool),
+    /// `or_insert(v)` with a `v` whose `Drop` panics
+    Fused,
+    /// `or_insert_with(|| panic!())`
+    Closure,
+}
 
 #[derive(Clone, Debug, PartialEq)]
 pub enum Op {
@@ -373,6 +560,17 @@ pub enum Op {
     Exec(String, Vec<u64>),
     Iter(u64, bool),
     IterNext(u64),
+    /// a closure under `catch_unwind` that takes guards and then returns (false) or panics (true)
+    Scope(Vec<Take>, bool),
+    /// `insert_by_id` where the `Drop` of the value that is replaced panics
+    InsertFused(u8, Key, u64),
+    EntryFault(u8, u64, EntryFault),
+    /// `exec` with a closure that panics while it holds the data
+    ExecFault(String, Vec<u64>),
+    /// the caller drops the i-th value it still holds from `remove`; true = its `Drop` panics
+    DropReturned(usize, bool),
+    /// last operation: the world is dropped while the `Drop` of the value under the id panics
+    DropWorld(Key),
     Conc { threads: u64, ops: u64, seed: u64 },
 }
 fn show_nums(v: &[u64]) -> String {
@@ -415,6 +613,14 @@ impl Op {
             Op::Exec(s, t) => format!("exec {} {}", s, show_nums(t)),
             Op::Iter(i, x) => format!("iter {} {}", i, *x as u8),
             Op::IterNext(i) => format!("iter-next {}", i),
+            Op::Scope(t, e) => format!("scope {} {}", if *e { "panic" } else { "ok" }, show_takes(t)),
+            Op::InsertFused(a, k, t) => format!("insert-fused {} {} {}", a, show_key(*k), t),
+            Op::EntryFault(t, k, EntryFault::Held(bv)) => format!("entry-held {} {} {}", t, k, *bv as u8),
+            Op::EntryFault(t, k, EntryFault::Fused) => format!("entry-fused {} {}", t, k),
+            Op::EntryFault(t, _, EntryFault::Closure) => format!("entry-with-panic {}", t),
+            Op::ExecFault(s, t) => format!("exec-panic {} {}", s, show_nums(t)),
+            Op::DropReturned(i, f) => format!("drop-returned #{} {}", i, *f as u8),
+            Op::DropWorld(k) => format!("drop-world-panic {}", show_key(*k)),
             Op::Conc { threads, ops, seed } => format!("conc threads={} ops={} seed={}", threads, ops, seed),
         }
     }
@@ -449,6 +655,22 @@ impl Op {
             "exec" => Op::Exec(w.get(1)?.to_string(), parse_nums(w.get(2)?)?),
             "iter" => Op::Iter(n(1)?, n(2)? == 1),
             "iter-next" => Op::IterNext(n(1)?),
+            "scope" => {
+                let e = match *w.get(1)? {
+                    "panic" => true,
+                    "ok" => false,
+                    _ => return None,
+                };
+                let takes: Option<Vec<Take>> = if w.get(2) == Some(&"-") { Some(vec![]) } else { w[2..].iter().map(|x| Take::parse(x)).collect() };
+                Op::Scope(takes?, e)
+            }
+            "insert-fused" => Op::InsertFused(t(1)?, k(2)?, n(3)?),
+            "entry-held" => Op::EntryFault(t(1)?, n(2)?, EntryFault::Held(n(3)? == 1)),
+            "entry-fused" => Op::EntryFault(t(1)?, n(2)?, EntryFault::Fused),
+            "entry-with-panic" => Op::EntryFault(t(1)?, 0, EntryFault::Closure),
+            "exec-panic" => Op::ExecFault(w.get(1)?.to_string(), parse_nums(w.get(2)?)?),
+            "drop-returned" => Op::DropReturned(idx(1)?, n(2)? == 1),
+            "drop-world-panic" => Op::DropWorld(k(1)?),
             "conc" => {
                 let f = |key: &str| -> Option<u64> { w.iter().find_map(|x| x.strip_prefix(key)).and_then(|v| v.parse().ok()) };
                 Op::Conc { threads: f("threads=")?, ops: f("ops=")?, seed: f("seed=")? }
@@ -459,7 +681,18 @@ impl Op {
     fn is_mut(&self) -> bool {
         matches!(
             self,
-            Op::Insert(..) | Op::InsertById(..) | Op::Remove(..) | Op::RemoveById(..) | Op::Entry(..) | Op::GetMut(..) | Op::GetMutRaw(..) | Op::Setup(..) | Op::Exec(..)
+            Op::Insert(..)
+                | Op::InsertById(..)
+                | Op::Remove(..)
+                | Op::RemoveById(..)
+                | Op::Entry(..)
+                | Op::GetMut(..)
+                | Op::GetMutRaw(..)
+                | Op::Setup(..)
+                | Op::Exec(..)
+                | Op::InsertFused(..)
+                | Op::EntryFault(..)
+                | Op::ExecFault(..)
         )
     }
 }
@@ -475,6 +708,10 @@ fn classify(msg: &str) -> String {
         "alreadyImmutablyBorrowed".into()
     } else if msg.contains("already borrowed") {
         "alreadyBorrowed".into()
+    } else if msg.contains("harness: drop fuse") {
+        "dropFuse".into()
+    } else if msg.contains("harness: explicit") {
+        "explicit".into()
     } else {
         format!("other:{}", msg.chars().take(60).map(|c| if c.is_whitespace() { '_' } else { c }).collect::<String>())
     }
@@ -497,6 +734,10 @@ enum Real {
     Data(Vec<Option<Box<dyn GuardLike>>>),
     DataSeen(Vec<Option<(u8, u64)>>),
     Panic(String),
+    /// the call was unwound by a panic of user code: "closure" / "drop"
+    Unwound(&'static str),
+    /// a closure that took guards: what they showed, how it ended ("ok", "explicit", "panic:<kind>")
+    Scoped(Vec<Option<(u8, u64)>>, String),
 }
 fn show_seen(s: (u8, u64)) -> String {
     if s.0 == 0 {
@@ -523,7 +764,21 @@ impl Real {
                 if f.is_empty() { "-".to_string() } else { f.iter().map(|x| x.map(show_seen).unwrap_or("-".into())).collect::<Vec<_>>().join(",") }
             ),
             Real::Panic(k) => format!("panic {}", k),
+            Real::Unwound(k) => format!("unwound {}", k),
+            Real::Scoped(f, e) => format!(
+                "scoped {} {}",
+                if f.is_empty() { "-".to_string() } else { f.iter().map(|x| x.map(show_seen).unwrap_or("-".into())).collect::<Vec<_>>().join(",") },
+                e
+            ),
         }
+    }
+}
+/// a caught panic of a faulty call: the injected faults are "unwound", everything else is a panic of the world
+fn unwound_or_panic(kind: String) -> Real {
+    match kind.as_str() {
+        "dropFuse" => Real::Unwound("drop"),
+        "explicit" => Real::Unwound("closure"),
+        _ => Real::Panic(kind),
     }
 }
 /// the model's answer with handles stripped and ZST tokens hidden; returns (canonical, handles)
@@ -533,6 +788,10 @@ fn canon_model(s: &str) -> (String, Vec<Option<u64>>) {
         ["guard", h, t] => (format!("guard {}", show_tok(t.parse().unwrap_or(1))), vec![h.parse().ok()]),
         ["value", t] => (format!("value {}", show_tok(t.parse().unwrap_or(1))), vec![]),
         ["seen", t] => (format!("seen {}", show_tok(t.parse().unwrap_or(1))), vec![]),
+        ["scoped", f, e] => {
+            let out: Vec<String> = if *f == "-" { vec![] } else { f.split(',').map(|x| if x == "-" { "-".to_string() } else { show_tok(x.parse().unwrap_or(1)) }).collect() };
+            (format!("scoped {} {}", if out.is_empty() { "-".to_string() } else { out.join(",") }, e), vec![])
+        }
         ["data", f] => {
             if *f == "-" {
                 return ("data -".into(), vec![]);
@@ -569,6 +828,9 @@ enum Exp {
     Value(u64),
     Seen(u64),
     Data(Vec<Option<u64>>),
+    Unwound(&'static str),
+    /// tokens shown, end ("ok", "explicit", "panic:absent", "panic:wrongType", "panic:already" = any borrow panic)
+    Scoped(Vec<Option<u64>>, &'static str),
     Skip,
 }
 impl Exp {
@@ -583,12 +845,23 @@ impl Exp {
             Exp::Value(t) => format!("value {}", show_tok(*t)),
             Exp::Seen(t) => format!("seen {}", show_tok(*t)),
             Exp::Data(f) => format!("data {}", if f.is_empty() { "-".to_string() } else { f.iter().map(|x| x.map(show_tok).unwrap_or("-".into())).collect::<Vec<_>>().join(",") }),
+            Exp::Unwound(k) => format!("unwound {}", k),
+            Exp::Scoped(f, e) => format!(
+                "scoped {} {}{}",
+                if f.is_empty() { "-".to_string() } else { f.iter().map(|x| x.map(show_tok).unwrap_or("-".into())).collect::<Vec<_>>().join(",") },
+                e,
+                if *e == "panic:already" { "*" } else { "" }
+            ),
             Exp::Skip => "skip".into(),
         }
     }
     fn matches(&self, real: &str) -> bool {
         match self {
             Exp::PanicBorrow => real.starts_with("panic already"),
+            Exp::Scoped(_, "panic:already") => {
+                let want = self.show();
+                real.starts_with(want.trim_end_matches('*'))
+            }
             e => e.show() == real,
         }
     }
@@ -620,6 +893,16 @@ pub struct Stats {
     pub sd_panics: u64,
     pub sd_ok: u64,
     pub iter_steps: u64,
+    pub scopes: u64,
+    pub scopes_refused_holding_guards: u64,
+    pub scopes_explicit_panic_holding_guards: u64,
+    pub guards_unwound: u64,
+    pub max_guards_unwound_at_once: u64,
+    pub scopes_while_outer_guards_alive: u64,
+    pub fused_drops_fired: u64,
+    pub closure_panics: u64,
+    pub world_drops_with_panicking_drop: u64,
+    pub values_leaked_by_world_drop: u64,
     pub by_op: BTreeMap<String, u64>,
 }
 
@@ -639,7 +922,13 @@ struct Case {
     live: Vec<Live>,
     iters: BTreeMap<u64, (It, usize, bool)>,
     refmap: BTreeMap<Key, u64>,
+    /// values `remove` handed back: (type, token — for the ZST the token the reference map had), the value
     held: Vec<(u8, u64, Box<dyn Any>)>,
+    /// set by `drop-world-panic`: the id whose value's `Drop` panics when the world is dropped
+    end_fuse: Option<Key>,
+    /// the drop accounting failed: a value may have been dropped while it is still reachable —
+    /// nothing may look at or drop the world's values any more
+    poisoned: bool,
     menu: Vec<SdEntry>,
     impl_v: Vec<(String, String)>,
     model_v: Vec<(String, String)>,
@@ -655,6 +944,8 @@ impl Case {
             ZTOKS.lock().unwrap_or_else(|e| e.into_inner()).clear();
         }
         DEFAULTS.with(|d| d.borrow_mut().clear());
+        disarm();
+        *FUSE_IN_UNWIND.lock().unwrap_or_else(|e| e.into_inner()) = false;
         Case {
             wp: Box::into_raw(Box::new(World::empty())),
             tp: Box::into_raw(Box::new(MetaTable::<dyn Tok>::new())),
@@ -663,6 +954,8 @@ impl Case {
             iters: BTreeMap::new(),
             refmap: BTreeMap::new(),
             held: vec![],
+            end_fuse: None,
+            poisoned: false,
             menu: sd_menu(),
             impl_v: vec![],
             model_v: vec![],
@@ -686,9 +979,11 @@ impl Case {
         self.impl_v.push((prop.to_string(), what));
     }
 
-    /// borrow state, presence, type and token of every cell, from the real world only
-    fn probe(&self) -> Vec<(Key, Option<(char, Option<(Option<u8>, u64)>)>)> {
+    /// borrow state (`F`ree / `S`hared + number of shared borrows / e`X`clusive / `#` corrupt), presence,
+    /// type and token of every cell, from the real world only
+    fn probe(&self) -> Vec<(Key, Option<(char, usize, Option<(Option<u8>, u64)>)>)> {
         let w = self.w();
+        let high = !(usize::MAX >> 1);
         all_keys()
             .into_iter()
             .map(|k| {
@@ -698,18 +993,40 @@ impl Case {
                 let st = match cell {
                     None => None,
                     Some(c) => {
-                        if let Ok(g) = c.try_borrow_mut() {
-                            Some(('F', Some(inspect(&**g))))
-                        } else if let Ok(g) = c.try_borrow() {
-                            Some(('S', Some(inspect(&**g))))
+                        // look first: a counter that was decremented too often makes the cell's own
+                        // `try_borrow` panic or abort the process
+                        let raw = peek_counter(c);
+                        let api_ok = match raw {
+                            None => true,
+                            Some(v) => v < (1 << 20) || (v & high != 0 && v < high + (1 << 20)),
+                        };
+                        if !api_ok {
+                            Some(('#', NCOUNT, None))
                         } else {
-                            Some(('X', None))
+                            let via_api = catch(|| {
+                                if let Ok(g) = c.try_borrow_mut() {
+                                    ('F', Some(inspect(&**g)))
+                                } else if let Ok(g) = c.try_borrow() {
+                                    ('S', Some(inspect(&**g)))
+                                } else {
+                                    ('X', None)
+                                }
+                            });
+                            match (via_api, raw) {
+                                (Err(_), _) => Some(('#', NCOUNT, None)),
+                                (Ok((c, i)), None) => Some((c, NCOUNT, i)),
+                                (Ok(('F', i)), Some(0)) => Some(('F', 0, i)),
+                                (Ok(('S', i)), Some(n)) if n > 0 && n & high == 0 => Some(('S', n, i)),
+                                (Ok(('X', i)), Some(n)) if n & high != 0 => Some(('X', 0, i)),
+                                // the counter and the cell's answers disagree
+                                (Ok(_), Some(_)) => Some(('#', NCOUNT, None)),
+                            }
                         }
                     }
                 };
                 if has != st.is_some() {
                     // has_value_raw and the table disagree: reported by `check_state`
-                    return (k, Some((if has { '?' } else { '!' }, None)));
+                    return (k, Some((if has { '?' } else { '!' }, NCOUNT, None)));
                 }
                 (k, st)
             })
@@ -720,14 +1037,71 @@ impl Case {
             .iter()
             .map(|(k, s)| match s {
                 None => format!("{}:-", show_key(*k)),
-                Some((c, i)) => format!("{}:{}:{}", show_key(*k), c, i.map(|(t, tok)| format!("{:?}/{}", t, tok)).unwrap_or_default()),
+                Some((c, n, i)) => format!(
+                    "{}:{}{}:{}",
+                    show_key(*k),
+                    c,
+                    if *c == 'S' && *n != NCOUNT { n.to_string() } else { String::new() },
+                    i.map(|(t, tok)| format!("{:?}/{}", t, tok)).unwrap_or_default()
+                ),
             })
             .collect::<Vec<_>>()
             .join(" ")
     }
 
+    /// conservation of values, from the drop log and the harness's own bookkeeping only (nothing
+    /// stored in the world is looked at)
+    fn check_conservation(&self, after: &str) -> Vec<(&'static str, String)> {
+        let mut v: Vec<(&'static str, String)> = vec![];
+        let l = LOG.lock().unwrap_or_else(|e| e.into_inner());
+        let mut seen: BTreeSet<u64> = BTreeSet::new();
+        for (ty, tok) in &l.dropped {
+            if *ty != 0 && !seen.insert(*tok) {
+                v.push(("C09", format!("after `{}`: the value with token {} was dropped twice", after, tok)));
+            }
+        }
+        let stored: BTreeSet<u64> = self.refmap.iter().filter(|(k, _)| k.0 != 0).map(|(_, t)| *t).collect();
+        let held: BTreeSet<u64> = self.held.iter().filter(|h| h.0 != 0).map(|h| h.1).collect();
+        for (ty, tok) in &l.made {
+            if *ty == 0 {
+                continue;
+            }
+            let n = seen.contains(tok) as u8 + stored.contains(tok) as u8 + held.contains(tok) as u8;
+            if n != 1 {
+                let what = match (seen.contains(tok), stored.contains(tok), held.contains(tok)) {
+                    (true, true, _) => "its Drop has run although it must still be stored in the world".to_string(),
+                    (true, _, true) => "its Drop has run although `remove` handed it to the caller, who still holds it".to_string(),
+                    (false, false, false) => "it is neither stored, nor in the caller's hands, nor was it dropped (leaked)".to_string(),
+                    _ => "it is both stored and in the caller's hands".to_string(),
+                };
+                v.push(("C09", format!("after `{}`: the value with token {} is in {} of {{world, returned, dropped}} (dropped: {}, stored according to the reference map: {}, returned: {}): {}", after, tok, n, seen.contains(tok), stored.contains(tok), held.contains(tok), what)));
+            }
+        }
+        let zm = l.made.iter().filter(|x| x.0 == 0).count();
+        let zd = l.dropped.iter().filter(|x| x.0 == 0).count();
+        let zs = self.refmap.keys().filter(|k| k.0 == 0).count() + self.held.iter().filter(|h| h.0 == 0).count();
+        if zm != zd + zs {
+            let what = if zd + zs > zm { "one was dropped although it must still be stored (or was dropped twice)" } else { "one is neither stored, nor in the caller's hands, nor was it dropped" };
+            v.push(("C09", format!("after `{}`: {} zero-sized values were made, {} dropped, {} are stored or returned: {}", after, zm, zd, zs, what)));
+        }
+        if *FUSE_IN_UNWIND.lock().unwrap_or_else(|e| e.into_inner()) {
+            v.push(("C09", format!("after `{}`: the value whose Drop was to panic was dropped while the call was already being unwound by another panic", after)));
+        }
+        v
+    }
+
     /// every implementation-side check that only looks at the current state
     fn check_state(&mut self, after: &str) {
+        // the drop accounting first: if it fails, a value may have been dropped while it is still
+        // reachable, and the world's values must not be looked at (or dropped) any more
+        let cv = self.check_conservation(after);
+        if !cv.is_empty() {
+            self.poisoned = true;
+            for (p, w) in cv {
+                self.violate(p, w);
+            }
+            return;
+        }
         let pr = self.probe();
         let mut v: Vec<(&str, String)> = vec![];
         for (k, st) in &pr {
@@ -742,16 +1116,19 @@ impl Case {
                         v.push(("C08", format!("after `{}`: {} is absent although {} guard(s) on it are alive", after, show_key(*k), s + x)));
                     }
                 }
-                Some((c @ ('?' | '!'), _)) => {
+                Some((c @ ('?' | '!'), _, _)) => {
                     v.push(("C09", format!("after `{}`: has_value_raw({}) answers {} but the cell lookup (try_fetch_internal) says {}", after, show_key(*k), *c == '?', *c != '?')));
                 }
-                Some((c, info)) => {
+                Some((c, n, info)) => {
                     if refd.is_none() {
                         v.push(("C09", format!("after `{}`: {} is present but the reference map has no entry", after, show_key(*k))));
                     }
                     let want = if x > 0 { 'X' } else if s > 0 { 'S' } else { 'F' };
                     if *c != want || x > 1 || (x > 0 && s > 0) {
-                        v.push(("C08", format!("after `{}`: cell {} probes as {} but the guard table holds {} shared / {} exclusive guard(s) on it", after, show_key(*k), c, s, x)));
+                        let state = match c { 'X' => "exclusively borrowed", 'S' => "shared-borrowed", '#' => "in a corrupt borrow state (its counter is neither 0, a small number, nor the exclusive mark)", _ => "unborrowed" };
+                        v.push(("C08", format!("after `{}`: cell {} is {} ({}) but exactly {} shared / {} exclusive guard(s) on it are alive", after, show_key(*k), state, c, s, x)));
+                    } else if *c == 'S' && *n != NCOUNT && *n as u64 != s {
+                        v.push(("C08", format!("after `{}`: cell {} counts {} shared borrow(s) but exactly {} shared guard(s) on it are alive", after, show_key(*k), n, s)));
                     }
                     if let Some((ty, tok)) = info {
                         if *ty != Some(k.0) {
@@ -772,8 +1149,10 @@ impl Case {
                 v.push(("C08", format!("after `{}`: a live guard on {} showed {:?} when taken and shows {:?} now", after, show_key(l.key), l.seen, now)));
             }
         }
-        // type ids through get_mut_raw when nothing is borrowed
-        if self.live.is_empty() && self.iters.is_empty() {
+        // type ids through get_mut_raw when nothing is borrowed (`AtomicRefCell::get_mut` asserts that,
+        // so only if every cell probed as free: a stuck borrow is reported above)
+        let all_free = pr.iter().all(|(_, st)| matches!(st, None | Some(('F', _, _))));
+        if self.live.is_empty() && self.iters.is_empty() && all_free {
             let w = self.wm();
             for k in all_keys() {
                 let t = w.get_mut_raw(rid(k)).map(|r| Any::type_id(&*r));
@@ -782,33 +1161,6 @@ impl Case {
                         v.push(("C09", format!("after `{}`: get_mut_raw({}).type_id() is not the type named by the id", after, show_key(k))));
                     }
                 }
-            }
-        }
-        // conservation of values
-        {
-            let l = LOG.lock().unwrap_or_else(|e| e.into_inner());
-            let mut seen: BTreeSet<u64> = BTreeSet::new();
-            for (ty, tok) in &l.dropped {
-                if *ty != 0 && !seen.insert(*tok) {
-                    v.push(("C09", format!("after `{}`: the value with token {} was dropped twice", after, tok)));
-                }
-            }
-            let stored: BTreeSet<u64> = self.refmap.iter().filter(|(k, _)| k.0 != 0).map(|(_, t)| *t).collect();
-            let held: BTreeSet<u64> = self.held.iter().filter(|h| h.0 != 0).map(|h| h.1).collect();
-            for (ty, tok) in &l.made {
-                if *ty == 0 {
-                    continue;
-                }
-                let n = seen.contains(tok) as u8 + stored.contains(tok) as u8 + held.contains(tok) as u8;
-                if n != 1 {
-                    v.push(("C09", format!("after `{}`: the value with token {} is in {} of {{world, returned, dropped}} (dropped: {}, stored: {}, returned: {})", after, tok, n, seen.contains(tok), stored.contains(tok), held.contains(tok))));
-                }
-            }
-            let zm = l.made.iter().filter(|x| x.0 == 0).count();
-            let zd = l.dropped.iter().filter(|x| x.0 == 0).count();
-            let zs = self.refmap.keys().filter(|k| k.0 == 0).count() + self.held.iter().filter(|h| h.0 == 0).count();
-            if zm != zd + zs {
-                v.push(("C09", format!("after `{}`: {} zero-sized values were made, {} dropped, {} are stored or returned", after, zm, zd, zs)));
             }
         }
         for (p, w) in v {
@@ -911,6 +1263,240 @@ impl Case {
     }
 }
 
+/// the fetches without `catch_unwind` (for use inside a closure that is itself caught)
+fn raw_fetch(w: &'static World, ty: u8, excl: bool, or_panic: bool) -> Option<Box<dyn GuardLike>> {
+    by_ty!(ty, T => match (excl, or_panic) {
+        (false, true) => Some(Box::new(w.fetch::<T>()) as Box<dyn GuardLike>),
+        (true, true) => Some(Box::new(w.fetch_mut::<T>()) as Box<dyn GuardLike>),
+        (false, false) => w.try_fetch::<T>().map(|g| Box::new(g) as Box<dyn GuardLike>),
+        (true, false) => w.try_fetch_mut::<T>().map(|g| Box::new(g) as Box<dyn GuardLike>),
+    })
+}
+fn raw_fetch_by_id(w: &'static World, a: u8, k: Key, excl: bool) -> Option<Box<dyn GuardLike>> {
+    let id = rid(k);
+    by_ty!(a, T => if excl {
+        w.try_fetch_mut_by_id::<T>(id).map(|g| Box::new(g) as Box<dyn GuardLike>)
+    } else {
+        w.try_fetch_by_id::<T>(id).map(|g| Box::new(g) as Box<dyn GuardLike>)
+    })
+}
+
+/// a guard a closure owns, as the harness's bookkeeping sees it
+#[derive(Clone, Copy)]
+struct Own {
+    key: Key,
+    excl: bool,
+    cloneable: bool,
+}
+struct ScopePlan {
+    /// the takes that are expressible in the current state, cut after the first one that must be refused
+    takes: Vec<Take>,
+    seen: Vec<Option<u64>>,
+    /// "ok" / "explicit" / "panic:absent" / "panic:wrongType" / "panic:already"
+    fin: &'static str,
+    /// guards the closure owns when it ends
+    holding: usize,
+}
+
+impl Case {
+    /// what a closure must see and how it must end, from the reference map and the guard table
+    /// (the closure's own guards count like any others); normalises the clone takes
+    fn plan_scope(&self, takes: &[Take], end_panic: bool) -> ScopePlan {
+        let mut own: Vec<Own> = vec![];
+        let mut out: Vec<Take> = vec![];
+        let mut seen: Vec<Option<u64>> = vec![];
+        let mut fin: Option<&'static str> = None;
+        let (mut ri, mut wi) = (0usize, 0usize);
+        for t in takes {
+            let extra: Vec<(Key, bool)> = own.iter().map(|h| (h.key, h.excl)).collect();
+            match t {
+                Take::Fetch(ty, excl, or_panic) => {
+                    out.push(t.clone());
+                    let k = (*ty, 0);
+                    match self.refmap.get(&k) {
+                        None => {
+                            if *or_panic {
+                                fin = Some("panic:absent")
+                            } else {
+                                seen.push(None)
+                            }
+                        }
+                        Some(tok) => {
+                            if self.compatible(k, *excl, &extra) {
+                                own.push(Own { key: k, excl: *excl, cloneable: !*excl });
+                                seen.push(Some(*tok));
+                            } else {
+                                fin = Some("panic:already")
+                            }
+                        }
+                    }
+                }
+                Take::ById(a, k, excl) => {
+                    out.push(t.clone());
+                    if *a != k.0 {
+                        fin = Some("panic:wrongType")
+                    } else {
+                        match self.refmap.get(k) {
+                            None => seen.push(None),
+                            Some(tok) => {
+                                if self.compatible(*k, *excl, &extra) {
+                                    own.push(Own { key: *k, excl: *excl, cloneable: !*excl });
+                                    seen.push(Some(*tok));
+                                } else {
+                                    fin = Some("panic:already")
+                                }
+                            }
+                        }
+                    }
+                }
+                Take::Data(spec) => {
+                    if !self.menu.iter().any(|e| e.spec == spec.as_str()) {
+                        continue;
+                    }
+                    out.push(t.clone());
+                    let mut ex = extra.clone();
+                    let mut got: Vec<Own> = vec![];
+                    let mut fields: Vec<Option<u64>> = vec![];
+                    for it in parse_items(spec).unwrap_or_default() {
+                        let k = (it.ty, 0);
+                        match self.refmap.get(&k) {
+                            None => {
+                                if it.opt {
+                                    fields.push(None)
+                                } else {
+                                    fin = Some("panic:absent");
+                                    break;
+                                }
+                            }
+                            Some(tok) => {
+                                if self.compatible(k, it.write, &ex) {
+                                    ex.push((k, it.write));
+                                    got.push(Own { key: k, excl: it.write, cloneable: false });
+                                    fields.push(Some(*tok));
+                                } else {
+                                    fin = Some("panic:already");
+                                    break;
+                                }
+                            }
+                        }
+                    }
+                    // a refused tuple is unwound inside `system_data`: the closure never sees its fields
+                    if fin.is_none() {
+                        own.extend(got);
+                        seen.extend(fields);
+                    }
+                }
+                Take::Iter(excl) => {
+                    out.push(t.clone());
+                    let idx = if *excl { &mut wi } else { &mut ri };
+                    let mut answered = false;
+                    while *idx < self.tys.len() {
+                        let k = (self.tys[*idx], 0);
+                        *idx += 1;
+                        if let Some(tok) = self.refmap.get(&k) {
+                            if self.compatible(k, *excl, &extra) {
+                                own.push(Own { key: k, excl: *excl, cloneable: !*excl });
+                                seen.push(Some(*tok));
+                            } else {
+                                fin = Some("panic:already")
+                            }
+                            answered = true;
+                            break;
+                        }
+                    }
+                    if !answered {
+                        seen.push(None)
+                    }
+                }
+                Take::CloneLocal(i) => {
+                    if own.is_empty() {
+                        continue;
+                    }
+                    let i = *i % own.len();
+                    if own[i].excl || !own[i].cloneable {
+                        continue;
+                    }
+                    out.push(Take::CloneLocal(i));
+                    let k = own[i].key;
+                    own.push(Own { key: k, excl: false, cloneable: true });
+                    seen.push(self.refmap.get(&k).copied());
+                }
+                Take::CloneOuter(i) => {
+                    if self.live.is_empty() {
+                        continue;
+                    }
+                    let i = *i % self.live.len();
+                    if self.live[i].excl || !self.live[i].g.can_clone() {
+                        continue;
+                    }
+                    out.push(Take::CloneOuter(i));
+                    let k = self.live[i].key;
+                    own.push(Own { key: k, excl: false, cloneable: true });
+                    seen.push(self.refmap.get(&k).copied());
+                }
+            }
+            if fin.is_some() {
+                break;
+            }
+        }
+        ScopePlan { takes: out, seen, fin: fin.unwrap_or(if end_panic { "explicit" } else { "ok" }), holding: own.len() }
+    }
+
+    /// the closure itself, against the real world; second component: guards it owned when it ended
+    fn real_scope(&self, takes: &[Take], end_panic: bool) -> (Real, usize) {
+        // SAFETY (harness): table and world outlive the closure
+        let (t, w): (&'static MetaTable<dyn Tok>, &'static World) = (unsafe { &*self.tp }, self.w());
+        let (live, menu) = (&self.live, &self.menu);
+        let seen: RefCell<Vec<Option<(u8, u64)>>> = RefCell::new(vec![]);
+        let holding = std::cell::Cell::new(0usize);
+        let r = catch(|| {
+            let mut stack = RevDrop(vec![]);
+            let mut it_r: Option<MetaIter<'static, dyn Tok>> = None;
+            let mut it_w: Option<MetaIterMut<'static, dyn Tok>> = None;
+            for tk in takes {
+                let got: Vec<Option<Box<dyn GuardLike>>> = match tk {
+                    Take::Fetch(ty, excl, or_panic) => vec![raw_fetch(w, *ty, *excl, *or_panic)],
+                    Take::ById(a, k, excl) => vec![raw_fetch_by_id(w, *a, *k, *excl)],
+                    Take::Data(spec) => match menu.iter().find(|e| e.spec == spec.as_str()) {
+                        Some(e) => (e.fetch)(w),
+                        None => vec![],
+                    },
+                    Take::Iter(false) => vec![it_r.get_or_insert_with(|| t.iter(w)).next().map(|g| Box::new(g) as Box<dyn GuardLike>)],
+                    Take::Iter(true) => vec![it_w.get_or_insert_with(|| t.iter_mut(w)).next().map(|g| Box::new(g) as Box<dyn GuardLike>)],
+                    Take::CloneLocal(i) => match stack.0.get(*i).and_then(|g| g.try_clone()) {
+                        Some(g) => vec![Some(g)],
+                        None => vec![],
+                    },
+                    Take::CloneOuter(i) => match live.get(*i).and_then(|l| l.g.try_clone()) {
+                        Some(g) => vec![Some(g)],
+                        None => vec![],
+                    },
+                };
+                for g in got {
+                    seen.borrow_mut().push(g.as_ref().map(|g| g.see()));
+                    if let Some(g) = g {
+                        stack.0.push(g);
+                        holding.set(stack.0.len());
+                    }
+                }
+            }
+            if end_panic {
+                panic!("harness: explicit");
+            }
+        });
+        let mut fin = match r {
+            Ok(()) => "ok".to_string(),
+            Err(k) if k == "explicit" => k,
+            Err(k) => format!("panic:{}", k),
+        };
+        let gp: Vec<String> = std::mem::take(&mut *GUARD_DROP_PANICS.lock().unwrap_or_else(|e| e.into_inner()));
+        if !gp.is_empty() {
+            fin = format!("{}+guard-drop-panicked:{}", fin, gp.join("+"));
+        }
+        (Real::Scoped(seen.into_inner(), fin), holding.get())
+    }
+}
+
 impl Case {
     fn real_fetch(&self, ty: u8, excl: bool, or_panic: bool) -> Real {
         let w = self.w();
@@ -963,8 +1549,36 @@ impl Case {
                     return false;
                 }
             }
+            Op::ExecFault(s, _) => {
+                if !self.menu.iter().any(|e| e.spec == s.as_str()) {
+                    return false;
+                }
+            }
+            Op::DropReturned(i, _) => {
+                if self.held.is_empty() {
+                    return false;
+                }
+                *i %= self.held.len();
+            }
+            Op::DropWorld(k) => {
+                // takes effect in `finish` (nothing can follow it); an absent id has nothing to arm
+                if !self.refmap.contains_key(k) {
+                    return false;
+                }
+                self.end_fuse = Some(*k);
+                transcript.push(op.line());
+                self.stats.ops += 1;
+                *self.stats.by_op.entry("drop-world-panic".to_string()).or_insert(0) += 1;
+                return true;
+            }
             Op::Meta(_) | Op::Conc { .. } => return false,
             _ => {}
+        }
+        let mut scope_plan: Option<ScopePlan> = None;
+        if let Op::Scope(takes, e) = &mut op {
+            let plan = self.plan_scope(takes, *e);
+            *takes = plan.takes.clone();
+            scope_plan = Some(plan);
         }
         if let Op::Clone(i) = &op {
             if self.live[*i].excl || self.live[*i].g.try_clone().map(drop).is_none() {
@@ -988,6 +1602,11 @@ impl Case {
         // guards the real call produced: (guard, key, excl)
         let mut new_guards: Vec<(Box<dyn GuardLike>, Key, bool)> = vec![];
         let mut frame_exempt = false;
+        // what a closure that panics must have seen through its guards (entry-held, exec-panic)
+        let mut entry_seen_expected: Option<Vec<Option<u64>>> = None;
+        let mut skip_model_outcome = false;
+        // the armed value's Drop ran (and panicked) during the call
+        let mut fuse_fired = false;
         let (exp, real): (Exp, Real) = match &op {
             Op::Insert(ty, tok) => {
                 let w = self.wm();
@@ -1002,18 +1621,20 @@ impl Case {
             }
             Op::Remove(ty) => {
                 let exp = match self.refmap.get(&(*ty, 0)) { Some(t) => Exp::Value(*t), None => Exp::None };
+                let ztok = self.refmap.get(&(*ty, 0)).copied();
                 let w = self.wm();
                 let r: Result<Option<(u8, u64, Box<dyn Any>)>, String> =
                     by_ty!(*ty, T => catch(|| w.remove::<T>()).map(|o| o.map(|v| (v.ty(), v.tok(), Box::new(v) as Box<dyn Any>))));
-                (exp, self.take_removed(r))
+                (exp, self.take_removed(r, ztok))
             }
             Op::RemoveById(a, k) => {
                 let exp = if *a != k.0 { Exp::Panic("wrongType") } else { match self.refmap.get(k) { Some(t) => Exp::Value(*t), None => Exp::None } };
+                let ztok = self.refmap.get(k).copied();
                 let w = self.wm();
                 let id = rid(*k);
                 let r: Result<Option<(u8, u64, Box<dyn Any>)>, String> =
                     by_ty!(*a, T => catch(|| w.remove_by_id::<T>(id)).map(|o| o.map(|v| (v.ty(), v.tok(), Box::new(v) as Box<dyn Any>))));
-                (exp, self.take_removed(r))
+                (exp, self.take_removed(r, ztok))
             }
             Op::Entry(ty, tok, by_value) => {
                 let exp = Exp::Seen(self.refmap.get(&(*ty, 0)).copied().unwrap_or(*tok));
@@ -1131,7 +1752,148 @@ impl Case {
                     Err(k) => (exp, Real::Panic(k)),
                 }
             }
-            Op::Meta(_) | Op::Conc { .. } => return false,
+            Op::Scope(takes, e) => {
+                let plan = scope_plan.take().unwrap();
+                let words: Vec<String> = takes
+                    .iter()
+                    .map(|t| match t {
+                        Take::CloneOuter(i) => format!("clone:{}", self.live[*i].mh.unwrap_or(0)),
+                        t => t.word(),
+                    })
+                    .collect();
+                model_line = format!("world scope {} {}", if *e { "panic" } else { "ok" }, if words.is_empty() { "-".to_string() } else { words.join(" ") });
+                let (real, holding) = self.real_scope(takes, *e);
+                self.stats.scopes += 1;
+                if !self.live.is_empty() {
+                    self.stats.scopes_while_outer_guards_alive += 1;
+                }
+                if let Real::Scoped(_, fin) = &real {
+                    if fin != "ok" {
+                        self.stats.guards_unwound += holding as u64;
+                        self.stats.max_guards_unwound_at_once = self.stats.max_guards_unwound_at_once.max(holding as u64);
+                        if holding > 0 {
+                            if fin == "explicit" {
+                                self.stats.scopes_explicit_panic_holding_guards += 1;
+                            } else {
+                                self.stats.scopes_refused_holding_guards += 1;
+                            }
+                        }
+                    }
+                }
+                let _ = plan.holding;
+                (Exp::Scoped(plan.seen, plan.fin), real)
+            }
+            Op::InsertFused(a, k, tok) => {
+                let old = self.refmap.get(k).copied();
+                let exp = if *a != k.0 {
+                    Exp::Panic("wrongType")
+                } else if old.is_some() {
+                    Exp::Unwound("drop")
+                } else {
+                    Exp::Unit
+                };
+                let w = self.wm();
+                let id = rid(*k);
+                if let Some(o) = old {
+                    arm(k.0, o);
+                }
+                let r = by_ty!(*a, T => { let v = T::make(*tok); catch(move || w.insert_by_id::<T>(id, v)) });
+                if old.is_some() && !disarm() {
+                    self.stats.fused_drops_fired += 1;
+                    fuse_fired = true;
+                }
+                (exp, match r { Ok(()) => Real::Unit, Err(k) => unwound_or_panic(k) })
+            }
+            Op::EntryFault(ty, tok, f) => {
+                let old = self.refmap.get(&(*ty, 0)).copied();
+                let w = self.wm();
+                match f {
+                    EntryFault::Held(bv) => {
+                        SEEN.with(|s| s.borrow_mut().clear());
+                        let r: Result<(), String> = by_ty!(*ty, T => if *bv {
+                            let v = T::make(*tok);
+                            catch(move || {
+                                let g = w.entry::<T>().or_insert(v);
+                                SEEN.with(|s| s.borrow_mut().push(Some((g.ty(), g.tok()))));
+                                panic!("harness: explicit");
+                            })
+                        } else {
+                            let t = *tok;
+                            catch(move || {
+                                let g = w.entry::<T>().or_insert_with(move || T::make(t));
+                                SEEN.with(|s| s.borrow_mut().push(Some((g.ty(), g.tok()))));
+                                panic!("harness: explicit");
+                            })
+                        });
+                        self.stats.closure_panics += 1;
+                        entry_seen_expected = Some(vec![Some(old.unwrap_or(*tok))]);
+                        (Exp::Unwound("closure"), match r { Ok(()) => Real::Unit, Err(k) => unwound_or_panic(k) })
+                    }
+                    EntryFault::Fused => {
+                        arm(*ty, *tok);
+                        let r: Result<(u8, u64), String> = by_ty!(*ty, T => {
+                            let v = T::make(*tok);
+                            catch(move || { let g = w.entry::<T>().or_insert(v); (g.ty(), g.tok()) })
+                        });
+                        if !disarm() {
+                            self.stats.fused_drops_fired += 1;
+                            fuse_fired = true;
+                        }
+                        (
+                            if old.is_some() { Exp::Unwound("drop") } else { Exp::Seen(*tok) },
+                            match r { Ok((t, k)) => Real::Seen(t, k), Err(k) => unwound_or_panic(k) },
+                        )
+                    }
+                    EntryFault::Closure => {
+                        let r: Result<(u8, u64), String> = by_ty!(*ty, T => catch(move || {
+                            let g = w.entry::<T>().or_insert_with(|| -> T { panic!("harness: explicit") });
+                            (g.ty(), g.tok())
+                        }));
+                        if old.is_none() {
+                            self.stats.closure_panics += 1;
+                        }
+                        (
+                            match old { Some(t) => Exp::Seen(t), None => Exp::Unwound("closure") },
+                            match r { Ok((t, k)) => Real::Seen(t, k), Err(k) => unwound_or_panic(k) },
+                        )
+                    }
+                }
+            }
+            Op::ExecFault(spec, toks) => {
+                frame_exempt = true;
+                let items = parse_items(spec).unwrap_or_default();
+                let m = self.expect_setup(&items, toks);
+                let exp = match self.expect_data(&m, &items) {
+                    Exp::Data(out) => {
+                        entry_seen_expected = Some(out);
+                        Exp::Unwound("closure")
+                    }
+                    e => e,
+                };
+                let f = self.menu.iter().find(|e| e.spec == spec.as_str()).unwrap().exec_boom;
+                DEFAULTS.with(|d| *d.borrow_mut() = toks.iter().copied().collect());
+                SEEN.with(|s| s.borrow_mut().clear());
+                let w = self.wm();
+                let r = catch(|| f(w));
+                DEFAULTS.with(|d| d.borrow_mut().clear());
+                self.stats.closure_panics += 1;
+                (exp, match r { Ok(fs) => Real::DataSeen(fs), Err(k) => unwound_or_panic(k) })
+            }
+            Op::DropReturned(i, fused) => {
+                let (ty, tok, b) = self.held.remove(*i);
+                model_line = format!("world drop-returned {}", tok);
+                skip_model_outcome = true;
+                if *fused {
+                    arm(ty, tok);
+                }
+                let r = catch(move || drop(b));
+                if *fused && !disarm() {
+                    self.stats.fused_drops_fired += 1;
+                    fuse_fired = true;
+                }
+                (if *fused { Exp::Unwound("drop") } else { Exp::Unit }, match r { Ok(()) => Real::Unit, Err(k) => unwound_or_panic(k) })
+            }
+            Op::Meta(_) | Op::Conc { .. } | Op::DropWorld(_) => return false,
         };
 
         // ---- move produced guards into the table, canonical text of the real answer
@@ -1174,15 +1936,19 @@ impl Case {
                 self.stats.wrong_type_panics += 1;
             }
         }
-        if matches!(op, Op::SystemData(_) | Op::Exec(..)) {
+        if matches!(op, Op::SystemData(_) | Op::Exec(..) | Op::ExecFault(..)) {
             if is_panic { self.stats.sd_panics += 1 } else { self.stats.sd_ok += 1 }
         }
 
         // ---- implementation-side oracle on the answer
-        if exp != Exp::Skip && !exp.matches(&real_text) {
+        // (a call that lets the value's Drop run and then keeps the panic to itself breaks neither property:
+        // that difference is left to the comparison with the model)
+        let swallowed = exp == Exp::Unwound("drop") && fuse_fired && real_text == "unit" && matches!(op, Op::InsertFused(..));
+        if exp != Exp::Skip && !exp.matches(&real_text) && !swallowed {
             let borrow_related = exp == Exp::PanicBorrow
-                || (matches!(exp, Exp::Guard(_) | Exp::Data(_)) && (real_text.starts_with("panic already") || real_text == "none"))
-                || (matches!(exp, Exp::Guard(_)) && matches!(op, Op::Clone(_)));
+                || (matches!(exp, Exp::Guard(_) | Exp::Data(_) | Exp::Unwound(_)) && (real_text.starts_with("panic already") || real_text == "none"))
+                || (matches!(exp, Exp::Guard(_)) && matches!(op, Op::Clone(_)))
+                || (matches!(&exp, Exp::Scoped(_, fin) if *fin != "panic:wrongType") && !real_text.ends_with("panic:wrongType"));
             let prop = if borrow_related { "C08" } else { "C09" };
             let why = match (&exp, real_text.as_str()) {
                 (Exp::PanicBorrow, r) if r.starts_with("guard") || r.starts_with("data") => "an aliasing guard was returned",
@@ -1190,9 +1956,23 @@ impl Case {
                 (Exp::Guard(_), "none") => "None was returned although the resource is present",
                 (Exp::Guard(_), r) if r.starts_with("panic already") => "the fetch panicked although no incompatible guard is alive",
                 (Exp::Panic("wrongType"), _) => "a call with a mismatching type argument did not panic with the type-id assertion",
+                (Exp::Scoped(..), _) => "what the closure saw through its guards, or how it ended, disagrees with the reference map / guard table",
+                (Exp::Unwound("drop"), "unit") => "the value whose Drop was to panic was not dropped by the call",
+                (Exp::Unwound("drop"), _) => "the call must drop the value (whose Drop panics) after it has done everything else, and let that panic through",
+                (Exp::Unwound("closure"), _) => "the panic of the caller's closure must come through, nothing else",
+                (_, "unwound drop") => "the call dropped a value it must not drop",
                 _ => "the answer disagrees with the reference map / guard table",
             };
             self.violate(prop, format!("`{}` answered `{}`, expected `{}`: {}", line, real_text, exp.show(), why));
+        }
+
+        if let (Some(want), true) = (&entry_seen_expected, real_text == "unwound closure") {
+            let got: Vec<Option<(u8, u64)>> = SEEN.with(|s| s.borrow().clone());
+            let got_text = Real::DataSeen(got).show();
+            let want_text = Exp::Data(want.clone()).show();
+            if got_text != want_text {
+                self.violate("C09", format!("`{}`: the closure saw `{}` through its guard(s) before it panicked, expected `{}`", line, got_text, want_text));
+            }
         }
 
         // ---- bookkeeping from what really happened
@@ -1214,7 +1994,19 @@ impl Case {
             (Op::Entry(ty, tok, _), r) if r.starts_with("seen") => {
                 self.refmap.entry((*ty, 0)).or_insert(*tok);
             }
-            (Op::Setup(spec, toks), _) | (Op::Exec(spec, toks), _) => {
+            // the replaced value's Drop panics after the new value is in place
+            (Op::InsertFused(_, k, tok), "unit") | (Op::InsertFused(_, k, tok), "unwound drop") => {
+                if self.refmap.insert(*k, *tok).is_some() { self.stats.replaced += 1 }
+            }
+            // the value is stored before the caller gets (and panics with) the guard
+            (Op::EntryFault(ty, tok, EntryFault::Held(_)), "unwound closure") => {
+                self.refmap.entry((*ty, 0)).or_insert(*tok);
+            }
+            // vacant slot: the value is stored and not dropped
+            (Op::EntryFault(ty, tok, EntryFault::Fused), r) if r.starts_with("seen") => {
+                self.refmap.entry((*ty, 0)).or_insert(*tok);
+            }
+            (Op::Setup(spec, toks), _) | (Op::Exec(spec, toks), _) | (Op::ExecFault(spec, toks), _) => {
                 let items = parse_items(spec).unwrap_or_default();
                 let m = self.expect_setup(&items, toks);
                 self.stats.defaults_created += (m.len() - self.refmap.len()) as u64;
@@ -1232,7 +2024,7 @@ impl Case {
                 let ans = d.ask(&model_line);
                 let (c, hs) = canon_model(&ans);
                 mhandles = hs;
-                if c != real_text {
+                if c != real_text && !skip_model_outcome {
                     self.model_v.push(("outcome".into(), format!("`{}`: the crate answered `{}`, the model `{}`", line, real_text, ans)));
                 }
             }
@@ -1251,17 +2043,32 @@ impl Case {
                 self.violate(prop, format!("`{}` panicked ({}) but changed the world: before [{}] after [{}]", line, real_text, before, after));
             }
         }
+        // ---- a closure that takes guards gives all of them back, however it ends
+        if let Op::Scope(_, _) = &op {
+            let after = self.snapshot();
+            if after != before {
+                let how = if real_text.ends_with(" ok") {
+                    "returned"
+                } else if real_text.ends_with(" explicit") {
+                    "panicked while holding its guards"
+                } else {
+                    "was refused a fetch and unwound through the guards it held"
+                };
+                self.violate("C08", format!("`{}` ({}): the closure {} and the borrow state is not what it was before: before [{}] after [{}]", line, real_text, how, before, after));
+            }
+        }
         self.check_state(&line);
-        if let Some(d) = drv {
+        if let (Some(d), false) = (drv, self.poisoned) {
             self.compare_probe(d, &line);
         }
         true
     }
 
-    fn take_removed(&mut self, r: Result<Option<(u8, u64, Box<dyn Any>)>, String>) -> Real {
+    /// `ztok`: the token the reference map had for the slot (a zero-sized value cannot show its own)
+    fn take_removed(&mut self, r: Result<Option<(u8, u64, Box<dyn Any>)>, String>, ztok: Option<u64>) -> Real {
         match r {
             Ok(Some((t, k, b))) => {
-                self.held.push((t, k, b));
+                self.held.push((t, if t == 0 { ztok.unwrap_or(0) } else { k }, b));
                 Real::Value(t, k)
             }
             Ok(None) => Real::None,
@@ -1299,8 +2106,9 @@ impl Case {
         let pr = self.probe();
         let mut rc = vec![];
         for (k, st) in &pr {
-            if let Some((c, info)) = st {
+            if let Some((c, n, info)) = st {
                 let (s, _) = self.shadow(*k);
+                let s = if *n != NCOUNT { *n as u64 } else { s };
                 let (ty, tok) = match info {
                     Some((t, tok)) => (t.unwrap_or(255), *tok),
                     None => self.live.iter().find(|l| l.key == *k && l.excl).map(|l| l.g.see()).unwrap_or((255, 0)),
@@ -1337,16 +2145,95 @@ impl Case {
             if let (Some(d), Some(h)) = (drv.as_deref_mut(), l.mh) {
                 d.ask(&format!("world drop {}", h));
             }
-            drop(l);
+            let k = l.key;
+            // (the drop of a guard on a cell whose counter is corrupt panics)
+            if let Err(e) = catch(move || drop(l)) {
+                if self.impl_v.is_empty() {
+                    self.violate("C08", format!("dropping a guard on {} at the end of the history panicked: {}", show_key(k), e));
+                }
+            }
         }
-        self.check_state("dropping all guards");
-        // SAFETY: created by Box::into_raw in `new`, nothing refers to them any more
-        unsafe {
-            drop(Box::from_raw(self.wp));
-            drop(Box::from_raw(self.tp));
+        if !self.poisoned && self.impl_v.is_empty() {
+            self.check_state("dropping all guards");
         }
+        if self.poisoned {
+            // a value may have been dropped while it is still stored: dropping the world (or what
+            // `remove` returned) could free it a second time — leak both, the verdict is in already
+            std::mem::forget(std::mem::take(&mut self.held));
+            // SAFETY: the table holds no resource values
+            unsafe { drop(Box::from_raw(self.tp)) };
+            return (self.impl_v, self.model_v, self.stats);
+        }
+        // the world's own drop, with the Drop of one stored value panicking if the history ends in `drop-world-panic`
+        let fuse: Option<(Key, u64)> = if self.impl_v.is_empty() && self.model_v.is_empty() { self.end_fuse.and_then(|k| self.refmap.get(&k).map(|t| (k, *t))) } else { None };
+        let n_before = LOG.lock().unwrap_or_else(|e| e.into_inner()).dropped.len();
+        // values the table did not reach because a Drop panicked: (type, token)
+        let mut leaked: Vec<(u8, u64)> = vec![];
+        let mut model_drop_done = false;
+        match fuse {
+            None => {
+                // SAFETY: created by Box::into_raw in `new`, nothing refers to it any more
+                unsafe { drop(Box::from_raw(self.wp)) };
+            }
+            Some((k, tok)) => {
+                arm(k.0, tok);
+                let wp = self.wp as usize;
+                // SAFETY: as above
+                let r = catch(move || unsafe { drop(Box::from_raw(wp as *mut World)) });
+                let unfired = disarm();
+                self.stats.world_drops_with_panicking_drop += 1;
+                let during: Vec<(u8, u64)> = LOG.lock().unwrap_or_else(|e| e.into_inner()).dropped[n_before..].to_vec();
+                let line = format!("drop-world-panic {}", show_key(k));
+                match &r {
+                    Err(e) if e == "dropFuse" => {}
+                    Ok(()) if unfired => self.impl_v.push(("C09".into(), format!("`{}`: the world was dropped but the value stored under {} was not", line, show_key(k)))),
+                    Ok(()) => self.impl_v.push(("C09".into(), format!("`{}`: the panic of the value's Drop did not come out of the world's drop", line))),
+                    Err(e) => self.impl_v.push(("C09".into(), format!("`{}`: dropping the world panicked with `{}`", line, e))),
+                }
+                // what was dropped was stored, and nothing twice (whether the table goes on after the
+                // panic or, like hashbrown, leaks what it had not reached yet, is its own business)
+                let mut stored: Vec<(u8, u64)> = self.refmap.iter().map(|(k, t)| (k.0, if k.0 == 0 { 0 } else { *t })).collect();
+                for d in &during {
+                    match stored.iter().position(|x| x == d) {
+                        Some(i) => {
+                            stored.remove(i);
+                        }
+                        None => self.impl_v.push(("C09".into(), format!("`{}`: the world's drop dropped a value (type {}, token {}) that it did not hold, or one value twice", line, d.0, d.1))),
+                    }
+                }
+                leaked = stored;
+                self.stats.values_leaked_by_world_drop += leaked.len() as u64;
+                if let (Some(d), true) = (drv.as_deref_mut(), self.impl_v.is_empty()) {
+                    // tokens for the model: a zero-sized value cannot show its own, any stored one will do
+                    let mut ztoks: Vec<u64> = self.refmap.iter().filter(|(kk, t)| kk.0 == 0 && !(k.0 == 0 && **t == tok)).map(|(_, t)| *t).collect();
+                    let mut others: Vec<(u8, u64)> = during.clone();
+                    if let Some(i) = others.iter().position(|x| *x == (k.0, if k.0 == 0 { 0 } else { tok })) {
+                        others.remove(i);
+                    }
+                    let before: Vec<u64> = others.iter().map(|(ty, t)| if *ty == 0 { ztoks.pop().unwrap_or(0) } else { *t }).collect();
+                    let ans = d.ask(&format!("world drop-world-panic {} {}", tok, show_nums(&before)));
+                    model_drop_done = true;
+                    let canon = |mut v: Vec<String>| {
+                        v.sort();
+                        if v.is_empty() { "-".to_string() } else { v.join(",") }
+                    };
+                    let real = format!("leaked {}", canon(leaked.iter().map(|x| show_seen(*x)).collect()));
+                    let model = match ans.strip_prefix("leaked ") {
+                        Some(l) => format!("leaked {}", canon(parse_nums(l).unwrap_or_default().into_iter().map(show_tok).collect())),
+                        None => ans.clone(),
+                    };
+                    if real != model {
+                        self.model_v.push(("ghost".into(), format!("`{}`: the world's drop dropped {:?} and so {}; the model answers `{}`", line, during, real, ans)));
+                    }
+                }
+            }
+        }
+        // SAFETY: created by Box::into_raw in `new`, nothing refers to it any more
+        unsafe { drop(Box::from_raw(self.tp)) };
         if let Some(d) = drv.as_deref_mut() {
-            d.ask("world drop-world");
+            if !model_drop_done {
+                d.ask("world drop-world");
+            }
             let g = d.ask("world ghost");
             let l = LOG.lock().unwrap_or_else(|e| e.into_inner());
             let canon = |v: Vec<u64>| {
@@ -1373,16 +2260,17 @@ impl Case {
                 })
                 .collect::<Vec<_>>()
                 .join(" ");
-            if real != model {
+            if real != model && fuse.is_none() || (fuse.is_some() && model_drop_done && real != model) {
                 self.model_v.push(("ghost".into(), format!("at the end: real [{}], model [{}]", real, model)));
             }
         }
         self.held.clear();
-        // every value was dropped exactly once
+        // every value was dropped exactly once (or, after a panicking Drop inside the world's drop, leaked)
         {
             let l = LOG.lock().unwrap_or_else(|e| e.into_inner());
             let mut made: Vec<(u8, u64)> = l.made.iter().map(|x| if x.0 == 0 { (0, 0) } else { *x }).collect();
             let mut dropped: Vec<(u8, u64)> = l.dropped.clone();
+            dropped.extend(leaked.iter().copied());
             made.sort();
             dropped.sort();
             if made != dropped {
@@ -1390,7 +2278,7 @@ impl Case {
                 let dd: BTreeSet<_> = dropped.iter().collect();
                 let never: Vec<_> = md.difference(&dd).take(5).collect();
                 let ghost: Vec<_> = dd.difference(&md).take(5).collect();
-                self.impl_v.push(("C09".into(), format!("at the end {} values were made and {} dropped (never dropped: {:?}; dropped but never made: {:?}; otherwise a double drop)", made.len(), dropped.len(), never, ghost)));
+                self.impl_v.push(("C09".into(), format!("at the end {} values were made and {} dropped{} (never dropped: {:?}; dropped but never made: {:?}; otherwise a double drop)", made.len(), dropped.len(), if leaked.is_empty() { String::new() } else { format!(" or leaked by the interrupted drop of the world ({})", leaked.len()) }, never, ghost)));
             }
         }
         (self.impl_v, self.model_v, self.stats)
@@ -1434,7 +2322,7 @@ pub fn eval_case(ops: &[Op], mut drv: Option<&mut Drv>) -> Outcome {
             c.stats.skipped += 1;
         }
         // stop at the first problem: later answers would only echo it (and an ill-typed world is not safe to use)
-        if !c.impl_v.is_empty() || !c.model_v.is_empty() {
+        if !c.impl_v.is_empty() || !c.model_v.is_empty() || c.end_fuse.is_some() {
             break;
         }
     }
@@ -1455,6 +2343,8 @@ struct Gen {
     tys: Vec<u8>,
     specs: Vec<&'static str>,
     pending: VecDeque<Op>,
+    /// values `remove` has (probably) handed back and the caller still holds
+    held: u64,
 }
 impl Gen {
     fn tok(&mut self, ty: u8) -> u64 {
@@ -1493,7 +2383,88 @@ impl Gen {
             }
         }
     }
+    /// a closure that takes 1-6 guards of any kind; often one of them collides with an earlier one
+    fn scope_op(&mut self) -> Op {
+        let n = 1 + self.rng.below(5);
+        let mut takes: Vec<Take> = vec![];
+        for _ in 0..n {
+            let r = self.rng.below(100);
+            let t = match r {
+                0..=27 => {
+                    let k = self.key();
+                    Take::Fetch(k.0, self.rng.chance(45), self.rng.chance(50))
+                }
+                28..=47 => {
+                    let k = self.key();
+                    let x = self.rng.chance(45);
+                    if self.rng.chance(10) { Take::ById(self.other_ty(k.0), k, x) } else { Take::ById(k.0, k, x) }
+                }
+                48..=62 => Take::Data(self.rng.pick(&self.specs.clone()).to_string()),
+                63..=77 => Take::Iter(self.rng.chance(40)),
+                78..=89 => Take::CloneLocal(self.rng.below(4) as usize),
+                _ => Take::CloneOuter(self.rng.below(8) as usize),
+            };
+            takes.push(t);
+        }
+        if self.rng.chance(35) {
+            // a fetch that an earlier take of the same closure makes impossible
+            let j = self.rng.below(takes.len() as u64) as usize;
+            let t = match &takes[j] {
+                Take::Fetch(ty, _, _) => Some(Take::Fetch(*ty, true, self.rng.chance(50))),
+                Take::ById(_, k, _) => Some(Take::ById(k.0, *k, true)),
+                Take::Data(spec) => parse_items(spec).and_then(|i| i.first().map(|it| Take::Fetch(it.ty, true, true))),
+                _ => None,
+            };
+            if let Some(t) = t {
+                takes.push(t);
+            }
+        }
+        Op::Scope(takes, self.rng.chance(60))
+    }
+    /// a `&mut World` call that meets a panic of user code
+    fn fault_op(&mut self) -> Op {
+        let r = self.rng.below(100);
+        let ty = self.ty();
+        match r {
+            0..=44 => {
+                // mostly onto an occupied slot
+                let k = if self.rng.chance(80) { self.key() } else { (ty, self.rng.below(NDY)) };
+                if self.rng.chance(10) {
+                    let a = self.other_ty(k.0);
+                    Op::InsertFused(a, k, self.tok(a))
+                } else {
+                    self.present.insert(k);
+                    Op::InsertFused(k.0, k, self.tok(k.0))
+                }
+            }
+            45..=84 => {
+                let ty = if self.rng.chance(60) { self.key().0 } else { ty };
+                let f = match self.rng.below(100) {
+                    0..=39 => EntryFault::Held(self.rng.chance(50)),
+                    40..=74 => EntryFault::Fused,
+                    _ => EntryFault::Closure,
+                };
+                if f != EntryFault::Closure {
+                    self.present.insert((ty, 0));
+                }
+                Op::EntryFault(ty, self.tok(ty), f)
+            }
+            _ => {
+                let spec = *self.rng.pick(&self.specs.clone());
+                let toks = parse_items(spec).unwrap_or_default().iter().map(|it| self.tok(it.ty)).collect::<Vec<_>>();
+                self.sim_setup(spec);
+                Op::ExecFault(spec.to_string(), toks)
+            }
+        }
+    }
     fn shared_op(&mut self) -> Op {
+        if self.rng.chance(14) {
+            return self.scope_op();
+        }
+        if self.held > 0 && self.rng.chance(5) {
+            self.held -= 1;
+            return Op::DropReturned(self.rng.below(4) as usize, self.rng.chance(50));
+        }
         let r = self.rng.below(100);
         let ty = self.ty();
         match r {
@@ -1564,6 +2535,9 @@ impl Gen {
     }
     fn mut_op(&mut self) -> Op {
         self.iters.clear();
+        if self.rng.chance(22) {
+            return self.fault_op();
+        }
         let r = self.rng.below(100);
         let ty = self.ty();
         match r {
@@ -1578,10 +2552,18 @@ impl Gen {
                     Op::InsertById(k.0, k, self.tok(k.0))
                 }
             }
-            42..=49 => { self.present.remove(&(ty, 0)); Op::Remove(ty) }
+            42..=49 => {
+                if self.present.remove(&(ty, 0)) { self.held += 1 }
+                Op::Remove(ty)
+            }
             50..=63 => {
                 let k = self.key();
-                if self.rng.chance(25) { Op::RemoveById(self.other_ty(k.0), k) } else { self.present.remove(&k); Op::RemoveById(k.0, k) }
+                if self.rng.chance(25) {
+                    Op::RemoveById(self.other_ty(k.0), k)
+                } else {
+                    if self.present.remove(&k) { self.held += 1 }
+                    Op::RemoveById(k.0, k)
+                }
             }
             64..=73 => { self.present.insert((ty, 0)); let bv = self.rng.chance(50); Op::Entry(ty, self.tok(ty), bv) }
             74..=78 => Op::GetMut(ty),
@@ -1680,6 +2662,11 @@ impl Gen {
                 }
             }
         }
+        // now and then the history ends with the world being dropped while one Drop panics
+        if self.rng.chance(30) && !self.present.is_empty() {
+            let v: Vec<Key> = self.present.iter().copied().collect();
+            ops.push(Op::DropWorld(*self.rng.pick(&v)));
+        }
         ops
     }
 }
@@ -1692,6 +2679,8 @@ pub struct ConcResult {
     pub violations: Vec<String>,
     pub acquired: u64,
     pub conflicts: u64,
+    /// guards' holders that panicked while holding them
+    pub unwound: u64,
 }
 
 #[cfg(feature = "parallel")]
@@ -1707,10 +2696,11 @@ pub fn run_conc(threads: u64, ops: u64, seed: u64) -> ConcResult {
     let viol: Mutex<Vec<String>> = Mutex::new(vec![]);
     let acquired = AtomicU64::new(0);
     let conflicts = AtomicU64::new(0);
+    let unwound = AtomicU64::new(0);
     let w = &world;
     std::thread::scope(|sc| {
         for tid in 0..threads {
-            let (keys, shadow, viol, acquired, conflicts) = (&keys, &shadow, &viol, &acquired, &conflicts);
+            let (keys, shadow, viol, acquired, conflicts, unwound) = (&keys, &shadow, &viol, &acquired, &conflicts, &unwound);
             sc.spawn(move || {
                 let mut rng = Rng::new(seed, 7000 + tid);
                 let report = |s: String| {
@@ -1727,6 +2717,8 @@ pub fn run_conc(threads: u64, ops: u64, seed: u64) -> ConcResult {
                     let hold = rng.below(4);
                     let newval = rng.next() | 1;
                     let want_clone = rng.chance(25);
+                    // now and then the thread panics while it holds the guard(s); the unwinding must release them
+                    let boom = rng.chance(6);
                     // one acquisition; everything between `enter` and `leave` is inside the guard's lifetime
                     let enter = |excl: bool| -> bool {
                         let v = if excl { shadow[ki].fetch_add(W, SeqCst) + W } else { shadow[ki].fetch_add(1, SeqCst) + 1 };
@@ -1743,21 +2735,28 @@ pub fn run_conc(threads: u64, ops: u64, seed: u64) -> ConcResult {
                                 else { catch(|| w.try_fetch_mut_by_id::<T>(rid(k))) };
                             match g {
                                 Ok(Some(mut g)) => {
-                                    if !enter(true) { report(format!("an exclusive guard on {} coexists with another guard", show_key(k))); }
-                                    if !g.sane() { report(format!("torn value seen under an exclusive guard on {}", show_key(k))); }
-                                    // non-atomic multi-word update under the exclusive guard
-                                    let any: &mut dyn Any = &mut *g;
-                                    if let Some(v) = any.downcast_mut::<V>() {
-                                        let keep = v.0[0];
-                                        for x in v.0.iter_mut() { *x = newval; std::hint::spin_loop(); }
-                                        for _ in 0..hold { std::thread::yield_now(); }
-                                        for x in v.0.iter_mut() { *x = keep; }
-                                    } else {
-                                        for _ in 0..hold { std::thread::yield_now(); }
+                                    let rr = catch(move || {
+                                        if !enter(true) { report(format!("an exclusive guard on {} coexists with another guard", show_key(k))); }
+                                        if !g.sane() { report(format!("torn value seen under an exclusive guard on {}", show_key(k))); }
+                                        // non-atomic multi-word update under the exclusive guard
+                                        let any: &mut dyn Any = &mut *g;
+                                        if let Some(v) = any.downcast_mut::<V>() {
+                                            let keep = v.0[0];
+                                            for x in v.0.iter_mut() { *x = newval; std::hint::spin_loop(); }
+                                            for _ in 0..hold { std::thread::yield_now(); }
+                                            for x in v.0.iter_mut() { *x = keep; }
+                                        } else {
+                                            for _ in 0..hold { std::thread::yield_now(); }
+                                        }
+                                        leave(true);
+                                        if boom { panic!("harness: explicit"); }
+                                        drop(g);
+                                    });
+                                    match rr {
+                                        Ok(()) => Ok(Some(())),
+                                        Err(e) if boom && e == "explicit" => { unwound.fetch_add(1, SeqCst); Ok(Some(())) }
+                                        Err(e) => Err(e),
                                     }
-                                    leave(true);
-                                    drop(g);
-                                    Ok(Some(()))
                                 }
                                 Ok(None) => Ok(None),
                                 Err(e) => Err(e),
@@ -1768,15 +2767,23 @@ pub fn run_conc(threads: u64, ops: u64, seed: u64) -> ConcResult {
                                 else { catch(|| w.try_fetch_by_id::<T>(rid(k))) };
                             match g {
                                 Ok(Some(g)) => {
-                                    if !enter(false) { report(format!("a shared guard on {} coexists with an exclusive guard", show_key(k))); }
-                                    if !g.sane() { report(format!("torn value seen under a shared guard on {}", show_key(k))); }
-                                    let g2 = if want_clone { let c = Clone::clone(&g); if !enter(false) { report(format!("a cloned shared guard on {} coexists with an exclusive guard", show_key(k))); } Some(c) } else { None };
-                                    for _ in 0..hold { std::thread::yield_now(); }
-                                    if !g.sane() { report(format!("value changed under a shared guard on {}", show_key(k))); }
-                                    leave(false);
-                                    drop(g);
-                                    if let Some(c) = g2 { if !c.sane() { report(format!("value changed under a cloned guard on {}", show_key(k))); } leave(false); drop(c); }
-                                    Ok(Some(()))
+                                    let rr = catch(move || {
+                                        if !enter(false) { report(format!("a shared guard on {} coexists with an exclusive guard", show_key(k))); }
+                                        if !g.sane() { report(format!("torn value seen under a shared guard on {}", show_key(k))); }
+                                        let g2 = if want_clone { let c = Clone::clone(&g); if !enter(false) { report(format!("a cloned shared guard on {} coexists with an exclusive guard", show_key(k))); } Some(c) } else { None };
+                                        for _ in 0..hold { std::thread::yield_now(); }
+                                        if !g.sane() { report(format!("value changed under a shared guard on {}", show_key(k))); }
+                                        leave(false);
+                                        if g2.is_some() { leave(false); }
+                                        if boom { panic!("harness: explicit"); }
+                                        drop(g);
+                                        if let Some(c) = g2 { if !c.sane() { report(format!("value changed under a cloned guard on {}", show_key(k))); } drop(c); }
+                                    });
+                                    match rr {
+                                        Ok(()) => Ok(Some(())),
+                                        Err(e) if boom && e == "explicit" => { unwound.fetch_add(1, SeqCst); Ok(Some(())) }
+                                        Err(e) => Err(e),
+                                    }
                                 }
                                 Ok(None) => Ok(None),
                                 Err(e) => Err(e),
@@ -1799,14 +2806,14 @@ pub fn run_conc(threads: u64, ops: u64, seed: u64) -> ConcResult {
         let c = unsafe { world.try_fetch_internal(rid(*k)) };
         let free = c.map(|c| c.try_borrow_mut().is_ok()).unwrap_or(false);
         if !free || shadow[i].load(SeqCst) != 0 {
-            violations.push(format!("after all threads finished cell {} is not free (or absent)", show_key(*k)));
+            violations.push(format!("after all threads finished (some of them having panicked while holding a guard) cell {} is not free (or absent)", show_key(*k)));
         }
     }
-    ConcResult { violations, acquired: acquired.into_inner(), conflicts: conflicts.into_inner() }
+    ConcResult { violations, acquired: acquired.into_inner(), conflicts: conflicts.into_inner(), unwound: unwound.into_inner() }
 }
 #[cfg(not(feature = "parallel"))]
 pub fn run_conc(_threads: u64, _ops: u64, _seed: u64) -> ConcResult {
-    ConcResult { violations: vec![], acquired: 0, conflicts: 0 }
+    ConcResult { violations: vec![], acquired: 0, conflicts: 0, unwound: 0 }
 }
 
 // ---------------------------------------------------------------------------------------------
@@ -1859,7 +2866,7 @@ pub fn run(args: &Args, rep: &mut Report) {
     let conc_ops = args.num("conc-ops", 2000);
     let mut drv = Drv::spawn(&args.str("driver", "/verif/lean/.lake/build/bin/driver"));
     rep.rule = format!(
-        "random histories (<= {} ops) over {} resource types (ZST, u64, String, Vec; all with a logging Drop) x {} dynamic ids of all World entry points incl. mismatching type arguments, system data tuples, meta-table iterators, guard clone/drop; &mut calls only with no live guard; plus {} many-thread rounds ({} threads x {} fetches). distinct = distinct executed op sequences; non-trivial = at least one borrow-conflict panic while two or more guards were alive",
+        "random histories (<= {} ops) over {} resource types (ZST, u64, String, Vec; all with a logging Drop that panics on demand) x {} dynamic ids of all World entry points incl. mismatching type arguments, system data tuples, meta-table iterators, guard clone/drop; closures under catch_unwind that take 1-6 guards of any kind (typed, by-id, tuple fields, iterator items, clones) and return, panic, or are refused a fetch half-way; entry / exec callers that panic holding the guard; or_insert_with closures that panic; a panicking Drop at insert-replace, or_insert on an occupied slot, the drop of a removed value and the world's own drop; &mut calls only with no live guard; plus {} many-thread rounds ({} threads x {} fetches). distinct = distinct executed op sequences; non-trivial = at least one borrow-conflict panic while two or more guards were alive",
         max_ops, NTY, NDY, conc_rounds, conc_threads, conc_ops
     );
     let mut todo: Vec<(String, Vec<Op>)> = vec![];
@@ -1883,7 +2890,7 @@ pub fn run(args: &Args, rep: &mut Report) {
     if args.get("replay").is_none() {
         let specs: Vec<&'static str> = sd_menu().iter().map(|e| e.spec).collect();
         for c in 0..cases {
-            let mut g = Gen { rng: Rng::new(seed, c), ctr: 0, present: BTreeSet::new(), live: vec![], iters: vec![], tys: vec![], specs: specs.clone(), pending: VecDeque::new() };
+            let mut g = Gen { rng: Rng::new(seed, c), ctr: 0, present: BTreeSet::new(), live: vec![], iters: vec![], tys: vec![], specs: specs.clone(), pending: VecDeque::new(), held: 0 };
             // sizes: mostly up to max_ops, every eighth history short
             let m = if c % 8 == 7 { (max_ops / 4).max(4) } else { max_ops };
             todo.push((format!("gen:{}:{}", seed, c), g.case(m)));
@@ -1893,7 +2900,15 @@ pub fn run(args: &Args, rep: &mut Report) {
         }
     }
     let mut reported: BTreeSet<String> = BTreeSet::new();
+    // the property this run is to decide: once the real crate has broken it on some input (and that input
+    // is shrunk and reported) nothing more is explored — a crate that corrupts its borrow counters or drops
+    // values twice may take the process down at any later point
+    let prop = args.str("prop", "");
     for (label, ops) in todo {
+        if !prop.is_empty() && (reported.contains(&format!("impl:{}", prop)) || reported.contains(&format!("impl:{}:conc", prop))) {
+            rep.count("cases_not_run_after_the_property_was_found_broken");
+            continue;
+        }
         if let Some(Op::Conc { threads, ops: n, seed: s }) = ops.first().cloned() {
             // a replayed stress case is schedule dependent: give it several attempts
             let attempts = if label.starts_with("replay") { 20 } else { 1 };
@@ -1908,6 +2923,7 @@ pub fn run(args: &Args, rep: &mut Report) {
             rep.count("conc_rounds");
             rep.add("conc_guards_acquired (schedule dependent)", r.acquired);
             rep.add("conc_borrow_conflicts (schedule dependent)", r.conflicts);
+            rep.add("conc_threads_unwound_while_holding_a_guard", r.unwound);
             if let Some(v) = r.violations.first() {
                 if reported.insert("impl:C08:conc".into()) {
                     // shrink: fewer threads / fewer ops while it still fails (three tries each, schedules vary)
@@ -1946,6 +2962,16 @@ pub fn run(args: &Args, rep: &mut Report) {
         rep.add("system_data_ok", st.sd_ok);
         rep.add("system_data_panics", st.sd_panics);
         rep.add("meta_iterator_steps", st.iter_steps);
+        rep.add("closures_taking_guards (scope)", st.scopes);
+        rep.add("closures_refused_a_fetch_while_holding_guards", st.scopes_refused_holding_guards);
+        rep.add("closures_panicking_while_holding_guards", st.scopes_explicit_panic_holding_guards);
+        rep.add("closures_run_while_outer_guards_alive", st.scopes_while_outer_guards_alive);
+        rep.add("guards_unwound", st.guards_unwound);
+        rep.maxi("max_guards_unwound_at_once", st.max_guards_unwound_at_once);
+        rep.add("panicking_drops_fired", st.fused_drops_fired);
+        rep.add("caller_closure_panics_inside_world_calls", st.closure_panics);
+        rep.add("world_drops_with_a_panicking_drop", st.world_drops_with_panicking_drop);
+        rep.add("values_leaked_by_interrupted_world_drops", st.values_leaked_by_world_drop);
         rep.maxi("max_live_guards", st.max_live);
         rep.maxi("max_shared_guards_on_one_cell", st.max_shared_on_one);
         rep.maxi("max_history_len", st.ops);
